@@ -166,7 +166,7 @@ pub fn ser_pair<D: Decl>(
     flush_fail_at: Option<u32>,
 ) -> Result<SerPair, String> {
     let v = SerVisitor::<D> { mode: Mode::Write { fmt, plan, tail, flush_fail_at }, aux, raws, bare: shape == ShapeId::Bare };
-    let r = if core { shapes::dispatch::<D, _>(shape, v) } else { shapes::dispatch_basic::<D, _>(shape, v) };
+    let r = { let _ = core; <D::Shapes as shapes::ShapeSet>::dispatch::<D, _>(shape, v) };
     match r? {
         PairOut::Write(p) => Ok(p),
         PairOut::Trace(_) => unreachable!(),
@@ -175,7 +175,7 @@ pub fn ser_pair<D: Decl>(
 
 pub fn trace_pair<D: Decl>(shape: ShapeId, core: bool, aux: &Aux, raws: Vec<D::TwinInner>, fail_at: Option<usize>) -> Result<TracePair, String> {
     let v = SerVisitor::<D> { mode: Mode::Trace { fail_at }, aux, raws, bare: shape == ShapeId::Bare };
-    let r = if core { shapes::dispatch::<D, _>(shape, v) } else { shapes::dispatch_basic::<D, _>(shape, v) };
+    let r = { let _ = core; <D::Shapes as shapes::ShapeSet>::dispatch::<D, _>(shape, v) };
     match r? {
         PairOut::Trace(p) => Ok(p),
         PairOut::Write(_) => unreachable!(),
